@@ -24,6 +24,14 @@ Proof. intros [] [] [] [] []; reflexivity. Qed.
 
 (* An exported signature (export keeps External, clears Public, resolve adds
    Forward) has the same linkage class and calling convention as its definition. *)
+(* Every call of a user function carries the calling convention of its callee, whatever the
+   callee's flags (a call whose convention differs from the callee's is undefined behaviour in
+   LLVM IR although the verifier accepts it: D59, repaired; the translator reads the
+   FunctionCall arm of generator.rs on every run). *)
+Theorem C03_call_convention_is_the_callee's : forall p e m f o,
+  call_conv_of p e m f o = callconv_of p e m f o.
+Proof. intros; unfold call_conv_of. reflexivity. Qed.
+
 Theorem C03_import_matches_definition : forall e m o,
   linkage_of true e m false o = linkage_of false e m true o /\
   callconv_of true e m false o = callconv_of false e m true o.
@@ -70,3 +78,4 @@ Print Assumptions C03_lower_branch_targets.
 Print Assumptions C03_lower_body_panics_iff.
 Print Assumptions C03_callconv.
 Print Assumptions C03_import_matches_definition.
+Print Assumptions C03_call_convention_is_the_callee's.
